@@ -178,3 +178,15 @@ Lemma tie_heap_replace : TIE_heap_replace =
    (0, "siftdown(h,0)");
    (0, "return(returnitem)")].
 Proof. reflexivity. Qed.
+
+(* mtbl/iter.c: mtbl_iter_seek *)
+Lemma tie_iter_seek : TIE_iter_seek =
+  [(0, "if(it==NULL)return(mtbl_res_failure)");
+   (0, "return(it->iter_seek(it->clos,key,len_key))")].
+Proof. reflexivity. Qed.
+
+(* mtbl/iter.c: mtbl_iter_next *)
+Lemma tie_iter_next : TIE_iter_next =
+  [(0, "if(it==NULL)return(mtbl_res_failure)");
+   (0, "return(it->iter_next(it->clos,key,len_key,val,len_val))")].
+Proof. reflexivity. Qed.
